@@ -217,6 +217,19 @@ class C03(ServerProp):
         out += [b"/etc/passwd", b"../secret", b"..\\secret", b"sub/../../secret", b"/../secret", b"a/../../srv-secret/s", b"../srv-secret/s",
                 b"..", b"a..b", b"a/..b", b"sub/..", b"sub/./b", b"sub//b", b"./a", b"a/", b"a/.", b"", b"/", b"\\\\a", b"//a", b"sub\\b",
                 b"x" * 400, b"../" * 100 + b"secret", b"srv/../secret", self.sandbox.encode() + b"/k0/secret"]
+        # directed: climb out through an EXISTING sub-directory, with every kind of separator run between the components (single, doubled,
+        # tripled, mixed, with '.' in between) - the kernel collapses separator runs, a hand-written depth count may not
+        seps = [b"/", b"//", b"///", b"\\", b"\\\\", b"\\/", b"/\\", b"/./", b"//.//"]
+        pres = [b"sub", b"sub/deep", b"./sub", b"/sub", b"sub/.", b"sub\\deep"]
+        targets = [b"secret", b"srv-secret/s", b"a", b"recv/a", b"send/a", b"planted"]
+        fam = []
+        for pre in pres:
+            for sp in seps:
+                for nup in (1, 2, 3, 4):
+                    for tg in targets:
+                        fam.append(pre + sp + (b".." + sp) * nup + tg)
+        rng.shuffle(fam)
+        out += fam[:(260 if tier == "quick" else len(fam))]
         return out
 
     def generate(self, tier, rng):
@@ -275,14 +288,14 @@ class C03(ServerProp):
 class C06(ServerProp):
     id = "C06"
     module = "Tftp.Props.C06"
-    rule = ("decision table {read-only, overwrite, keep/clean, single/multi port, shared/split dirs} x {RRQ, WRQ} x target {missing, existing shorter/longer, in sub-directory, missing parent} "
+    rule = ("decision table {read-only, overwrite, keep/clean, single/multi port, shared/split dirs} x {RRQ, WRQ} x target {missing, existing shorter/longer/empty, in sub-directory, missing parent} "
             "x option sets, against the in-process server with before/after listings; non-trivial = distinct case that received a reply or started a transfer")
 
     def generate(self, tier, rng):
         lines = []
         i = 0
         flagsets = ["".join(x) for x in itertools.product(["", "r"], ["", "o"], ["", "k"], ["", "s"], ["", "x"])]
-        names = [b"a", b"new", b"sub/b", b"sub/new", b"nodir/x", b"long", b"short", b"/a", b"sub\\b"]
+        names = [b"a", b"new", b"sub/b", b"sub/new", b"nodir/x", b"long", b"short", b"/a", b"sub\\b", b"empty", b"sub/empty"]
         optsets = [(), (("blksize", 8),), (("tsize", 7), ("windowsize", 2)), (("timeout", 1), ("blksize", 1428), ("foo", "1"))]
         reps = 1 if tier == "quick" else 4
         for _ in range(reps):
@@ -294,7 +307,10 @@ class C06(ServerProp):
                         base = "send" if split else "srv"
                         rbase = "recv" if split else "srv"
                         fs = ["%s/a=%s" % (base, hx(b"file-a-content")), "%s/sub/b=%s" % (base, hx(b"bb")),
-                              "%s/long=%s" % (rbase, "gen:900:3"), "%s/short=%s" % (rbase, hx(b"s")), "%s/sub/" % rbase, "secret=%s" % hx(b"TOP")]
+                              "%s/long=%s" % (rbase, "gen:900:3"), "%s/short=%s" % (rbase, hx(b"s")), "%s/sub/" % rbase, "secret=%s" % hx(b"TOP"),
+                              "%s/empty=-" % rbase, "%s/sub/empty=-" % rbase]
+                        if split:
+                            fs += ["send/empty=-"]
                         if split:
                             fs += ["recv/a=%s" % hx(b"old-recv-a"), "recv/sub/b=%s" % hx(b"old-b")]
                         lines.append("req %s %s %s %s" % (self.root(i), fl or "-", ",".join(fs), rq(kind, name, opts).hex()))
